@@ -1,6 +1,6 @@
 SPECIFICATION Spec
 CONSTANTS Threads = {"W", "R"}
-  Order = "snapshot-first"
-  ReleaseAt = "after-publish"
+  Order = "lock-first"
+  ReleaseAt = "before-publish"
   History = TRUE
 INVARIANT EmitReplay
